@@ -149,6 +149,9 @@ fixed("C03-self-axis-caller-order", "C03", "925e4ec",
 fixed("C19-unmarshal-target-panics", "C19", "bbc43b3",
       "Unmarshal panicked on nil, nil-pointer, pointer-to-nil-pointer and non-pointer struct targets",
       witness="known/C19-unmarshal-target-panics.json")
+fixed("C20-value-with-equals-sign", "C20", "e88d854",
+      "-s/-v/-e split their argument at every '=': a variable value such as 'a=b' or a namespace URI with a query string was rejected with the usage text and no file was processed",
+      witness="known/C20-value-with-equals-sign.json")
 fixed("C20-m-no-namespace-child", "C20", "9d67732",
       "-m printed an element without a namespace inside a namespaced element without xmlns=\"\", so the record parsed back into the parent's namespace",
       witness="known/C20-m-no-namespace-child.json")
